@@ -73,7 +73,7 @@ def run(ctx):
     vh = ctx.need_harness()
     rng = ctx.rng
     reps = 30 if ctx.tier == "thorough" else 10
-    nwide = 60 if ctx.tier == "thorough" else 16
+    nwide = 150 if ctx.tier == "thorough" else 16
     roots, wide = [], []
     for i in range(nwide):
         g = U.Gen(rng, wide=True, p_bad=0.15 if i % 2 else 0.0, p_dyn=0.4)
